@@ -574,8 +574,9 @@ def argv_model(prog, sl, fn):
             main.append(e)
 
     def context(e):
-        """(guards on struct fields, loop field, note)"""
+        """(guards on struct fields, loop field, note); value-dependent conditions are kept in `issues_of[id(e)]`"""
         guards = []
+        issues_of[id(e)] = strict_guard_issues(E, sl, fn, e, ftypes)
         for cd, views, subj in guards_of(E, e):
             if cd.kind == 'bool':
                 fld = _field_of_param0(views[0][0], fn)
@@ -613,6 +614,7 @@ def argv_model(prog, sl, fn):
 
     def contributions(e, payload, iterable):
         guards, loop, note = context(e)
+        issues = issues_of.get(id(e), [])
         kind = 'args' if iterable else 'arg'
         if not iterable:
             cs = [_Contribution(payload, None, [])]
@@ -635,12 +637,17 @@ def argv_model(prog, sl, fn):
             gs = [g for g in gs if not (lp and g[0] == lp and g[1] == ['Some'])]
             if items and items[-1].loop == lp and items[-1].conds == gs:
                 items[-1].elems.append(el)
+                items[-1].vals.append(c.value)
             else:
                 items.append(Item(kind, [el], gs, lp, e.call))
+                items[-1].vals = [c.value]          # the raw values, parallel to elems
+                items[-1].issues = issues           # value-dependent conditions the contribution is made under
+                items[-1].eff, items[-1].E = e, E
         return items
 
     items = []
     spliced = set()
+    issues_of = {}
     for e in main:
         if e.kind == 'ARG':
             items.extend(contributions(e, e.args[1], False))
@@ -678,3 +685,795 @@ def argv_model(prog, sl, fn):
 def _word_vector(fn, m):
     ty = fn.local_ty(m)
     return any(t in ty for t in ('String', 'str', 'OsStr', 'Path'))
+
+
+# ---------------------------------------------------------------------------------------------------------------
+# Part C: store model of the setters / constructors that carry the configuration
+# ---------------------------------------------------------------------------------------------------------------
+# A *store* is a write to a field of the setter's `self`: an assignment `self.f = v` or a std call that receives
+# `&mut self.f` (insert / push / extend ...), made in the setter itself, in a private helper, in another setter it
+# delegates to, or in a closure handed to an iterator consumer — with the written values in the setter's own terms.
+class _Assign:
+    """an assignment statement presented like a Call, so that the chain / loop / guard helpers apply to it"""
+    indirect = False
+    decl = res = full = dty = dest = None
+    args = ()
+
+    def __init__(self, fn, bb, line, stmt=None):
+        self.fn, self.bb, self.line, self.stmt = fn, bb, line, stmt
+
+    @property
+    def name(self):
+        return '<assign>'
+
+    def names(self):
+        return set()
+
+    def is_(self, *names):
+        return False
+
+    def where(self):
+        return '%s:%s' % (self.fn.file, self.line)
+
+
+def _self_field(v, entry):
+    """(field name, deeper projections) when v is a place inside `self` of the entry function"""
+    v = strip(v)
+    proj = []
+    while v[0] in ('field', 'variant'):
+        proj.append(v[2])
+        v = strip(v[1])
+    if proj and v[0] == 'param' and v[1] == entry.path and v[2] == 0:
+        proj.reverse()
+        return proj[0], tuple(proj[1:])
+    return None
+
+
+class StoreEffects(Effects):
+    def __init__(self, prog, sl, entry):
+        Effects.__init__(self, prog, sl)
+        self.entry = entry
+
+    def _expand_call1(self, fn, c, forall, mode, mapping, chain, stack, out):
+        # a std call that receives `&mut <place inside the entry function's self>` (insert / push / extend / entry ...)
+        if not c.indirect and c.args and not self.prog.callee_fns(c) and _takes_mut(fn, c):
+            recv = self.subst(self.slicer.operand(fn, c.args[0]), mapping)
+            if _self_field(recv, self.entry) is not None:
+                args = tuple(self.subst(self.slicer.operand(fn, a), mapping) for a in c.args)
+                ef = Eff('STORE', None, c, chain, mode == 'must', None, args)
+                ef.mapping = mapping
+                out.append(ef)
+                return
+        return Effects._expand_call1(self, fn, c, forall, mode, mapping, chain, stack, out)
+
+    def expand(self, fn, mode='must', site_bbs=None, mapping=None, chain=(), _stack=None):
+        out = Effects.expand(self, fn, mode, site_bbs, mapping, chain, _stack)
+        if mode != 'may' or fn.path in (_stack or ()) or len(_stack or ()) > self.max_depth:
+            return out
+        m = mapping or {}
+        reach = fn.reachable(0)
+        for bi, b in enumerate(fn.blocks):
+            if bi not in reach or b.get('cleanup'):
+                continue
+            for si, st in enumerate(b['s']):
+                if st[0] != '=' or len(st[1]) < 2:
+                    continue
+                dst = self.subst(self.slicer.place(fn, st[1]), m)
+                if _self_field(dst, self.entry) is None:
+                    continue
+                val = self.subst(self.slicer._rvalue(fn, st[2], set(), 0, (bi, si)), m)
+                ef = Eff('STORE', None, _Assign(fn, bi, st[3] if len(st) > 3 else fn.line, st), chain, False, None, (dst, val))
+                ef.mapping = m
+                out.append(ef)
+        return out
+
+
+def _takes_mut(fn, c):
+    """the first argument of call c is a mutable borrow (or a moved `&mut` reborrow)"""
+    pl = op_place(c.args[0])
+    if pl is None:
+        return False
+    ty = fn.local_ty(pl[0]) if len(pl) == 1 else ''
+    return ty.startswith('&mut ')
+
+
+class Store:
+    def __init__(self, field, proj, op, args, eff):
+        self.field, self.proj, self.op, self.args, self.eff = field, proj, op, args, eff
+
+    def __repr__(self):
+        return 'Store(%s%s %s(%s) @%s)' % (self.field, ''.join('.' + p for p in self.proj), self.op, ', '.join(vstr(a)[:70] for a in self.args), self.eff.where())
+
+
+def carrier_methods(prog, ty):
+    """inherent, hand-written methods of type `ty`"""
+    out = []
+    for p, f in sorted(prog.fns.items()):
+        if p.startswith(ty + '::') and '::' not in p[len(ty) + 2:] and f.kind == 'AssocFn' and not f.derived:
+            out.append(f)
+    return out
+
+
+def store_model(prog, sl, fn):
+    """(StoreEffects, [Store]) of a `&mut self` method"""
+    E = StoreEffects(prog, sl, fn)
+    stores = []
+    for e in program_order([e for e in E.expand(fn, 'may') if e.kind == 'STORE' and e.call is not None]):
+        field, proj = _self_field(e.args[0], fn)
+        op = 'assign' if isinstance(e.call, _Assign) else (e.call.name or '?')
+        stores.append(Store(field, proj, op, e.args[1:], e))
+    return E, stores
+
+
+import re as _re  # noqa: E402
+
+WRAPPERS = ('std::rc::Rc::<T>::new', 'std::sync::Arc::<T>::new', 'std::boxed::Box::<T>::new', 'std::rc::Rc::<T, A>::new')
+_MAP_INSERT = _re.compile(r'^std::collections::(Hash|BTree)Map::<.*>::insert$')
+_SET_INSERT = _re.compile(r'^std::collections::(Hash|BTree)Set::<.*>::insert$')
+_VEC_PUSH = _re.compile(r'^std::vec::Vec::<.*>::push$|^std::collections::VecDeque::<.*>::push_back$')
+_OPT_SET = _re.compile(r'^std::option::Option::<T>::(insert|replace)$')
+# container operations that do not simply add / replace what they are given
+DIFFERENT = (
+    (_re.compile(r'::entry$|::try_insert$'), 'keeps the value already stored under the key (first write wins)'),
+    (_re.compile(r'^std::option::Option::<T>::get_or_insert(_with|_default)?$'), 'keeps a value that is already set (first write wins)'),
+    (_re.compile(r'^std::vec::Vec::<.*>::insert$'), 'inserts at a chosen position instead of appending'),
+    (_re.compile(r'::(retain|retain_mut|dedup|dedup_by|dedup_by_key|truncate|clear|remove|swap_remove|pop|pop_first|pop_last|drain|sort|sort_by|sort_by_key|sort_unstable|reverse|take|split_off)$'),
+     'removes or reorders what is stored'),
+)
+
+
+class PCfg:
+    """the parameters of a setter / constructor in the role of `Cfg`: exact(v) = index of the parameter v denotes"""
+
+    def __init__(self, fn, first):
+        self.fn, self.first = fn, first
+
+    def exact(self, v):
+        v = strip(v)
+        if v[0] == 'param' and v[1] == self.fn.path and v[2] >= self.first:
+            return v[2]
+        return None
+
+    def mentioned(self, v):
+        return sorted({x[2] for x in walk(v) if x[0] == 'param' and x[1] == self.fn.path and x[2] >= self.first})
+
+
+def peel(v):
+    """the payload of `Some(x)` / `Rc::new(x)` / `Box::new(x)` wrappers (conversions are transparent already)"""
+    while True:
+        v = strip(v)
+        if v[0] == 'agg' and v[2] == 'Some' and v[1] == 'std::option::Option' and v[3]:
+            v = dict(v[3]).get('0', ('unknown', 'Some'))
+        elif v[0] == 'call' and v[1] in WRAPPERS and len(v[2]) == 1:
+            v = v[2][0]
+        else:
+            return v
+
+
+def iter_source(sl, v, pcfg):
+    """v is a collection / iterator made of *all* elements of one parameter, unchanged and in order:
+    -> (param index, [projection of the element each component takes] | None for the element itself, None)
+    or (None, None, reason) — reason starts with '!' when elements are certainly dropped / transformed"""
+    v = strip(v)
+    names = [x[1] for x in walk(v) if x[0] == 'call']
+    if any(n.endswith('::rev') for n in names):
+        return None, None, '!iterates in reverse order'
+    al = iters.alts(sl, v)
+    if len(al) != 1:
+        return None, None, 'not a single iteration (%d alternatives)' % len(al)
+    elem, fa, flag = al[0]
+    if fa is None:
+        return None, None, 'a literal, not a parameter'
+    p = pcfg.exact(fa)
+    if flag:
+        return None, None, '!%s elements of the iterable' % ('stops before the end / skips' if flag == 'trunc' else 'filters')
+    if p is None:
+        return None, None, 'iterates %s' % vstr(fa)[:60]
+    base = iters.elem_of(fa)
+    e = unconv(elem)
+    if canon(e) == canon(base):
+        return p, None, None
+    if e[0] == 'tuple':
+        projs = []
+        for x in e[1]:
+            x = unconv(x)
+            pr = []
+            while x[0] == 'field' and canon(x) != canon(base):
+                pr.append(x[2])
+                x = unconv(x[1])
+            if canon(x) != canon(base):
+                return None, None, ('!' if _derived_from(elem, base, pcfg) else '') + 'stores %s instead of the element' % vstr(elem)[:60]
+            projs.append(tuple(reversed(pr)))
+        return p, projs, None
+    return None, None, ('!' if _derived_from(elem, base, pcfg) else '') + 'stores %s instead of the element' % vstr(elem)[:60]
+
+
+def _derived_from(elem, base, pcfg):
+    return bool(pcfg.mentioned(elem)) or any(canon(y) == canon(base) for y in walk(elem))
+
+
+def unconv(v):
+    """v without conversion calls that were applied as function items (`.map(Into::into)`, `.map(String::from)`)"""
+    from .lib import value as _v
+    while isinstance(v, tuple) and v and v[0] == 'call' and len(v[2]) == 1 and \
+            (v[1] in _v.TRANSPARENT or v[1] in _v.FROM_NAMES or any(r.match(v[1]) for r in _v._TRX)):
+        v = v[2][0]
+    return v
+
+
+def _operand_root(fn, operand):
+    pl = op_place(operand) if operand is not None else None
+    if pl is None:
+        return None
+    return _through_moves(fn, pl, refs=False)
+
+
+def mutated_before_store(fn, operands):
+    """calls that receive `&mut <local>` of a local holding a value about to be stored (`v.dedup()` between the conversion
+    and the assignment): [callee names]"""
+    roots = {r for r in (_operand_root(fn, o) for o in operands) if r is not None and r > fn.argc}
+    if not roots:
+        return []
+    tmps = {}
+    for b in fn.blocks:
+        if b.get('cleanup'):
+            continue
+        for s in b['s']:
+            if s[0] == '=' and s[2]['r'] == 'ref' and s[2].get('mut') and s[2]['p'][0] in roots and len(s[1]) == 1:
+                tmps[s[1][0]] = s[2]['p'][0]
+    out = []
+    for c in fn.calls:
+        for a in c.args:
+            pl = op_place(a)
+            if pl and pl[0] in tmps:
+                out.append(c.name or 'an indirect call')
+    return out
+
+
+def _reached_on_every_return(E, e, upto=None):
+    """the store e (or, with `upto` = a loop context, the loop it sits in) is passed on every normally returning
+    execution of the entry function"""
+    lv = levels(e)
+    last = upto[0] if upto is not None else len(lv) - 1
+    for k in range(0, last + 1):
+        c = lv[k][0]
+        g = c.fn
+        if g.kind == 'Closure' and k > 0:
+            # the closure of a consumer: covered by on_every_iteration
+            continue
+        a = upto[2].header if (upto is not None and k == last and upto[2] is not None) else c.bb
+        seen = g.reachable(0, stop={a})
+        if any(b in seen and b != a for b in g.return_blocks()):
+            return False
+    return True
+
+
+def _literal_elements(v):
+    """v with `next()` of a one-element literal replaced by that element and projections of tuples resolved"""
+    if not isinstance(v, tuple) or not v or not isinstance(v[0], str):
+        return v
+    if v[0] == 'unwrap' and v[1][0] == 'call' and v[1][1] == IT + 'next' and len(v[1][2]) == 1:
+        c = strip(v[1][2][0])
+        if c[0] == 'array' and len(c[1]) == 1:
+            return _literal_elements(c[1][0])
+    if v[0] == 'field':
+        b = _literal_elements(v[1])
+        b0 = strip(b)
+        if b0[0] == 'tuple' and v[2].isdigit() and int(v[2]) < len(b0[1]):
+            return b0[1][int(v[2])]
+        return ('field', b, v[2]) + tuple(v[3:])
+    return v
+
+
+class Verdict:
+    def __init__(self, fn):
+        self.fn = fn
+        self.ok = None            # True | False (violated) | None (unproven)
+        self.why = ''
+        self.field = None
+        self.mode = None          # 'set' | 'add'
+        self.op = None
+        self.slots = []           # per stored component ('0' key / '1' value / '' the element or value): (param, projection)
+        self.where = '%s:%d' % (fn.file, fn.line)
+
+    def bad(self, why):
+        self.ok, self.why = False, why
+        return self
+
+    def unknown(self, why):
+        self.ok, self.why = None, why
+        return self
+
+    def order(self):
+        """store components in the order of the API sources they receive (parameter order, then element component)"""
+        return [c for c, src in sorted(self.slots, key=lambda x: (x[1][0], x[1][1]))]
+
+
+def pname(fn, p):
+    first = 1 if (fn.args and fn.args[0].startswith('&')) and 'self' == (fn.local_name(1) or '') else 0
+    return fn.local_name(p + 1) or 'parameter %d' % (p - first + 1)
+
+
+def judge_setter(prog, sl, fn):
+    """what a `&mut self` setter stores: exactly its parameters, all of them, unconditionally, into one field"""
+    V = Verdict(fn)
+    pcfg = PCfg(fn, 1)
+    params = list(range(1, fn.argc))
+    E, stores = store_model(prog, sl, fn)
+    if not stores:
+        return V.bad('stores nothing')
+    V.where = stores[0].eff.where()
+    if len({s.field for s in stores}) != 1:
+        return V.unknown('writes several fields: %s' % sorted({s.field for s in stores}))
+    V.field = stores[0].field
+    if any(s.proj for s in stores):
+        return V.unknown('writes only a part of self.%s' % V.field)
+    cleared = False
+    if len(stores) == 2 and stores[0].op.endswith('::clear') and not stores[0].args and not loop_contexts(E, stores[0].eff) \
+            and not [1 for cd, views, subj in guards_of(E, stores[0].eff)] and _reached_on_every_return(E, stores[0].eff):
+        cleared = True          # `self.f.clear(); self.f.extend(x)` replaces the contents like an assignment
+        stores = stores[1:]
+    if len(stores) != 1:
+        return V.unknown('%d writes to self.%s' % (len(stores), V.field))
+    s = stores[0]
+    e = s.eff
+    V.op = s.op
+    for rx, what in DIFFERENT:
+        if rx.search(s.op):
+            return V.bad('%s on self.%s %s' % (s.op.split('::')[-1], V.field, what))
+    # unconditional
+    for cd, views, subj in guards_of(E, e):
+        if subj is not None and strip(subj)[0] == 'call' and strip(subj)[1] == IT + 'next':
+            continue
+        return V.bad('stored only when %s is %s' % (vstr(views[0][0])[:80], sorted(views[0][1]) if isinstance(views[0][1], frozenset) else views[0][1]))
+    loops = loop_contexts(E, e)
+    if len(loops) > 1:
+        return V.unknown('nested loops around the store')
+    lp = None
+    if loops:
+        ctx = loops[0]
+        if ctx[3] is None:
+            return V.unknown('loop over an unknown iterator')
+        al = iters.alts(sl, ctx[3])
+        if len(al) == 1 and al[0][1] is None and not al[0][2]:
+            # a one-element literal (`self.envs([(key, value)])`): the body runs exactly once, with the literal's element
+            if not on_every_iteration(E, [e], ctx) or not _reached_on_every_return(E, e, ctx):
+                return V.bad('not stored on every path')
+        else:
+            p, projs, why = iter_source(sl, ctx[3], pcfg)
+            if p is None:
+                return V.bad(why[1:]) if why.startswith('!') else V.unknown(why)
+            if projs is not None:
+                return V.unknown('loop over transformed elements')
+            if not on_every_iteration(E, [e], ctx):
+                return V.bad('some elements of `%s` are skipped' % pname(fn, p))
+            if not _reached_on_every_return(E, e, ctx):
+                return V.bad('the loop over `%s` is not run on every path' % pname(fn, p))
+            lp = p
+    elif not _reached_on_every_return(E, e):
+        return V.bad('not stored on every path')
+    call = e.call
+    ops = [call.stmt[2].get('o')] if isinstance(call, _Assign) and call.stmt[2]['r'] == 'use' else list(call.args[1:])
+    muts = mutated_before_store(call.fn, ops)
+    if muts:
+        bad = [m for m in muts if any(rx.search(m) for rx, _ in DIFFERENT)]
+        return V.bad('the value is changed by %s before it is stored' % bad[0]) if bad else V.unknown('the value is handed to %s before it is stored' % muts[0])
+
+    def src(a):
+        """(param, projection, via) of one stored value"""
+        a = peel(_literal_elements(a))
+        p = pcfg.exact(a)
+        if p is not None:
+            return (p, ()), None
+        if lp is not None:
+            el = element_of(sl, a, pcfg)
+            if el is not None:
+                return (el[0], tuple(el[1])), None
+        m = pcfg.mentioned(a)
+        if m or (lp is not None and any(x[0] == 'call' and x[1] == IT + 'next' for x in walk(a))):
+            return None, '!stores %s, not the parameter itself' % vstr(a)[:70]
+        return None, 'stores %s' % vstr(a)[:70]
+
+    slots = []
+    if s.op == 'assign' or _OPT_SET.match(s.op):
+        V.mode = 'set'
+        if lp is not None:
+            return V.unknown('assignment inside a loop')
+        val = peel(s.args[0])
+        if pcfg.exact(val) is not None:
+            slots.append(('', (pcfg.exact(val), ())))
+        else:
+            p, projs, why = iter_source(sl, val, pcfg) if val[0] == 'call' else (None, None, 'stores %s' % vstr(val)[:70])
+            if p is None:
+                if why.startswith('!'):
+                    return V.bad(why[1:])
+                return V.bad('stores %s, not the parameter itself' % vstr(val)[:70]) if pcfg.mentioned(val) else V.unknown(why)
+            if projs is not None:
+                return V.unknown('stores transformed elements')
+            slots.append(('', (p, ('*',))))
+    elif _MAP_INSERT.match(s.op) and len(s.args) == 2:
+        V.mode = 'add'
+        for comp, a in zip(('0', '1'), s.args):
+            x, why = src(a)
+            if x is None:
+                return V.bad(why[1:]) if why.startswith('!') else V.unknown(why)
+            slots.append((comp, x))
+    elif (_SET_INSERT.match(s.op) or _VEC_PUSH.match(s.op)) and len(s.args) == 1:
+        V.mode = 'add'
+        x, why = src(s.args[0])
+        if x is None:
+            return V.bad(why[1:]) if why.startswith('!') else V.unknown(why)
+        slots.append(('', x))
+    elif (sink_kind(call) == 'EXTEND' or call.decl == 'std::iter::Extend::extend') and len(s.args) == 1:
+        V.mode = 'add'
+        if lp is not None:
+            return V.unknown('extend inside a loop')
+        p, projs, why = iter_source(sl, s.args[0], pcfg)
+        if p is None:
+            return V.bad(why[1:]) if why.startswith('!') else V.unknown(why)
+        if projs is None:
+            slots.append(('', (p, ('*',))))
+        else:
+            slots.extend((str(i), (p, ('*',) + pr)) for i, pr in enumerate(projs))
+    else:
+        return V.unknown('unrecognised write %s on self.%s' % (s.op, V.field))
+    if cleared:
+        V.mode = 'set'
+    V.slots = slots
+    srcs = [x for _, x in slots]
+    if len(set(srcs)) != len(srcs):
+        return V.bad('the same value is stored twice: %s' % srcs)
+    missing = [p for p in params if p not in {x[0] for x in srcs}]
+    if missing:
+        return V.bad('parameter `%s` is never stored' % pname(fn, missing[0]))
+    # a pair-valued element must arrive with both components
+    for p in {x[0] for x in srcs}:
+        comps = sorted(x[1] for x in srcs if x[0] == p)
+        tails = [c[1:] if c and c[0] == '*' else c for c in comps]
+        tails = [t for t in tails if t]
+        if tails and sorted(tails) != [('0',), ('1',)]:
+            return V.bad('only component(s) %s of the elements of `%s` are stored' % (tails, pname(fn, p)))
+    V.ok = True
+    V.why = '%s <- %s' % (V.field, ', '.join('%s%s' % (pname(fn, x[0]), ''.join('.' + c for c in x[1])) for x in srcs))
+    return V
+
+
+def judge_constructor(prog, sl, fn, ty):
+    """-> (ok, why, {param index: field}, {field: default value}) for `fn new(..) -> Self`"""
+    pcfg = PCfg(fn, 0)
+    v = strip(sl.local(fn, 0))
+    if v[0] == 'call' and not v[2]:
+        g = prog.fns.get(v[1])
+        if g is not None and (g.derived or g.path.endswith('::default')):
+            return True, 'the derived default', {}, {}
+    if v[0] != 'agg' or v[1] != ty:
+        return None, 'the constructed value is %s' % vstr(v)[:80], {}, {}
+    where, defaults = {}, {}
+    for name, fv in v[3]:
+        pv = peel(fv)
+        p = pcfg.exact(pv)
+        if p is None and pcfg.mentioned(pv):
+            p, projs, why = iter_source(sl, pv, pcfg) if pv[0] == 'call' else (None, None, '!')
+            if p is None or projs is not None:
+                return (False if (why or '').startswith('!') or pcfg.mentioned(pv) else None), \
+                    'field %s is initialised with %s, not with the parameter itself' % (name, vstr(pv)[:70]), where, defaults
+        if p is None:
+            defaults[name] = fv
+            continue
+        if p in where:
+            return False, 'parameter `%s` initialises both %s and %s' % (fn.local_name(p + 1), where[p], name), where, defaults
+        where[p] = name
+    missing = [p for p in range(fn.argc) if p not in where]
+    if missing:
+        return False, 'parameter `%s` is dropped' % fn.local_name(missing[0] + 1), where, defaults
+    return True, ', '.join('%s <- %s' % (f, fn.local_name(p + 1)) for p, f in sorted(where.items())), where, defaults
+
+
+def is_empty_default(v):
+    """the value is an empty collection / None / a plain literal"""
+    v = strip(v)
+    if v[0] == 'agg':
+        return v[2] == 'None' or not v[3] or all(is_empty_default(x) for _, x in v[3])
+    if v[0] == 'const':
+        return True
+    if v[0] == 'call' and not v[2]:
+        return v[1].endswith(('::new', '::default'))
+    if v[0] == 'call' and v[1].endswith('::with_capacity'):
+        return True
+    return False
+
+
+# ---------------------------------------------------------------------------------------------------------------
+# Part D: conditions an argv contribution is made under, and the grammar of option values
+# ---------------------------------------------------------------------------------------------------------------
+_COLLECTION_EMPTY = _re.compile(r'^std::(vec::Vec|collections::\w+(::\w+)?)::<.*>::is_empty$|^core::slice::<impl \[T\]>::is_empty$|^std::slice::<impl \[T\]>::is_empty$')
+
+
+def exact_field(v, fn):
+    """name of the field when v *is* a field of the converted struct (borrowed / unwrapped / converted), else None"""
+    v = strip(v)
+    if v[0] == 'field' and strip(v[1])[0] == 'param' and strip(v[1])[1] == fn.path and strip(v[1])[2] == 0:
+        return v[2]
+    return None
+
+
+def strict_guard_issues(E, sl, fn, e, ftypes):
+    """conditions on the *contents* of a field under which the contribution e is made (a flag / an option must be
+    emitted whenever the field is set, a loop must emit for every element): [(field, description)]"""
+    out = []
+    for cd, views, subj in guards_of(E, e):
+        s0 = strip(subj) if subj is not None else None
+        if s0 is not None and s0[0] == 'call' and s0[1] == IT + 'next':
+            continue            # loop progress
+        tested = [v for v, _ in views] + ([subj] if subj is not None else [])
+        fld = next((f for f in (_field_of_param0(v, fn) for v in tested) if f is not None), None)
+        if fld is None:
+            continue
+        if cd.kind == 'variant' and subj is not None and exact_field(subj, fn) is not None:
+            continue            # `if let Some(x) = self.f`, `match self.policy`
+        if cd.kind == 'bool':
+            ok = False
+            for v, oc in views:
+                v0 = strip(v)
+                if exact_field(v0, fn) is not None:
+                    ok = True       # a bool field
+                elif v0[0] == 'call' and len(v0[2]) == 1 and exact_field(v0[2][0], fn) is not None:
+                    if v0[1].endswith(('Option::<T>::is_some', 'Option::<T>::is_none')):
+                        ok = True
+                    elif _COLLECTION_EMPTY.match(v0[1]) and oc is False:
+                        ok = True   # `if !self.words.is_empty() { args(self.words) }`: an empty collection emits nothing anyway
+            if ok:
+                continue
+        v, oc = views[0]
+        out.append((fld, 'made only when %s is %s' % (vstr(v)[:80], sorted(oc) if isinstance(oc, frozenset) else oc)))
+    return out
+
+
+def loop_exits_early(E, e):
+    """a MIR loop around contribution e that can be left before its iterator is exhausted"""
+    for i, kind, L, coll in loop_contexts(E, e):
+        if kind != 'mir':
+            continue
+        f = L.fn
+        ex = getattr(L, 'exhaust', None)
+        exits = {b for b in (L.exit_bb or []) if f.blocks[b]['t']['t'] != 'unreachable' and not f.blocks[b].get('cleanup')}
+        if ex is None or exits - {ex[1]}:
+            return True
+    return False
+
+
+_LOSSLESS = ('::to_string_lossy', '::display', '::into_owned', '::to_str', '::to_string', '::as_str', '::as_os_str', '::to_os_string')
+
+
+def field_ref(v, fn):
+    """(field, component path, is element) when v renders a field of the converted struct, an element of it, or a
+    component of an element, unchanged; ('?', field) when it is computed from a field; None otherwise"""
+    v0 = v
+    proj, elem = [], False
+    for _ in range(24):
+        v = unconv(strip(v))
+        v = strip(v)
+        f = exact_field(v, fn)
+        if f is not None:
+            return (f, tuple(reversed(proj)), elem)
+        if v[0] == 'field':
+            if strip(v[1])[0] != 'variant':
+                proj.append(v[2])
+            v = v[1]
+        elif v[0] == 'variant':
+            v = v[1]
+        elif v[0] == 'call' and v[1] == IT + 'next' and len(v[2]) == 1:
+            elem = True
+            v = v[2][0]
+        elif v[0] == 'call' and len(v[2]) == 1 and v[1].endswith(_LOSSLESS):
+            v = v[2][0]
+        else:
+            break
+    f = _field_of_param0(v0, fn)
+    return ('?', f) if f is not None else None
+
+
+def value_template(v, depth=0):
+    """option value -> list of pieces (str | value): the pieces of a format string or of a string assembled with
+    push / push_str, in order; any other value is one placeholder"""
+    from .lib.value import concat_parts
+    v = unconv(strip(v))
+    v = strip(v)
+    parts = None
+    if v[0] == 'fmt':
+        parts = list(v[1])
+    elif v[0] == 'concat' and depth < 4:
+        parts = []
+        for x in concat_parts(v):
+            x0 = strip(x)
+            if x0[0] == 'call' and not x0[2] and x0[1].endswith(('::new', '::with_capacity', '::default')):
+                continue        # the fresh, empty buffer
+            if x0[0] == 'call' and x0[1].endswith('::with_capacity'):
+                continue
+            parts.extend(value_template(x, depth + 1))
+    if parts is None and v[0] == 'call' and v[1].endswith('::join') and len(v[2]) == 2 and strip(v[2][0])[0] == 'array' \
+            and strip(v[2][1])[0] == 'const' and isinstance(strip(v[2][1])[1], str) and depth < 4:
+        # `[a, b].join("=")`
+        parts = []
+        for i, x in enumerate(strip(v[2][0])[1]):
+            if i:
+                parts.append(strip(v[2][1])[1])
+            parts.extend(value_template(x, depth + 1))
+    if parts is not None:
+        out = []
+        for p in parts:
+            if not isinstance(p, str) and strip(p)[0] == 'const' and isinstance(strip(p)[1], str):
+                p = strip(p)[1]
+            if isinstance(p, str):
+                if out and isinstance(out[-1], str):
+                    out[-1] += p
+                elif p:
+                    out.append(p)
+            else:
+                out.append(p)
+        return out
+    if v[0] == 'const' and isinstance(v[1], str):
+        return [v[1]]
+    return [v]
+
+
+def value_alternatives(v):
+    """the alternatives of a `match` / `if` producing the value"""
+    v = strip(v)
+    if v[0] == 'phi':
+        out = []
+        for x in v[1]:
+            out.extend(value_alternatives(x))
+        return out
+    if v[0] == 'select':
+        return [x for _, x in v[3]]
+    return [v]
+
+
+def parse_option_value(option, v, fn, sl=None):
+    """decode an option value with the grammar of the tool's option: -> (roles {role: (field, comp, elem)}, problem)
+    problem is None | ('bad', text) | ('unknown', text).  Private rendering helpers (`reference.into_arg()`) are
+    transparent: when the value as written is not understood, it is read again with such calls inlined."""
+    roles, problem = _parse_option_value(option, v, fn)
+    if problem is not None and sl is not None:
+        iv = sl.inline_deep(v)
+        if iv != v:
+            r2, p2 = _parse_option_value(option, iv, fn)
+            if p2 is None or problem[0] == 'unknown':
+                return r2, p2
+    return roles, problem
+
+
+def _parse_option_value(option, v, fn):
+    roles = {}
+    alts = value_alternatives(v)
+    kind = OPTION_GRAMMAR.get(option, 'plain')
+    for alt in alts:
+        tpl = value_template(alt)
+        phs = [p for p in tpl if not isinstance(p, str)]
+        refs = [field_ref(p, fn) for p in phs]
+        for p, r in zip(phs, refs):
+            if r is None:
+                return roles, ('unknown', 'contains %s' % vstr(p)[:60])
+            if r[0] == '?':
+                return roles, ('bad', '%s is not the configured value itself' % vstr(strip(p))[:70])
+        text = ''.join(p if isinstance(p, str) else '\x00%d\x00' % phs.index(p) for p in tpl)
+        got = None
+        if kind == 'plain':
+            if len(tpl) != 1 or len(phs) != 1:
+                return roles, ('bad', 'the value is %s, not the configured value alone' % _render(tpl))
+            got = {'value': refs[0]}
+        elif kind == 'pair':
+            # docker / pack: NAME=VALUE, split at the first '='
+            m = _re.match(r'^\x00(\d)\x00=\x00(\d)\x00$', text)
+            if not m:
+                return roles, ('bad', 'the value %s is not <name>=<value>' % _render(tpl))
+            got = {'name': refs[int(m.group(1))], 'value': refs[int(m.group(2))]}
+        elif kind == 'port':
+            # [[ip:][hostPort]:]containerPort[/protocol]
+            m = _re.match(r'^((\d{1,3}(\.\d{1,3}){3}|\[[0-9a-fA-F:]+\]):)?(\d*:)?\x00(\d)\x00(/(tcp|udp|sctp))?$', text)
+            if not m:
+                return roles, ('bad', 'the value %s does not publish the configured port as the container port' % _render(tpl))
+            got = {'port': refs[int(m.group(5))]}
+        elif kind == 'mount':
+            kv = {}
+            for part in text.split(','):
+                k, _, val = part.partition('=')
+                kv[{'src': 'source', 'dst': 'target', 'destination': 'target'}.get(k, k)] = val
+            ms, mt = _re.match(r'^\x00(\d)\x00$', kv.get('source', '')), _re.match(r'^\x00(\d)\x00$', kv.get('target', ''))
+            if kv.get('type') != 'bind' or not ms or not mt:
+                return roles, ('bad', 'the value %s is not type=bind,source=<source>,target=<target>' % _render(tpl))
+            extra = sorted(set(kv) - {'type', 'source', 'target'})
+            if extra:
+                return roles, ('unknown', 'additional mount settings %s' % extra)
+            got = {'source': refs[int(ms.group(1))], 'target': refs[int(mt.group(1))]}
+        for k, r in got.items():
+            if k in roles and roles[k][:2] != r[:2]:
+                return roles, ('unknown', 'alternatives render different fields')
+            roles[k] = r
+    return roles, None
+
+
+def _render(tpl):
+    return ''.join(p if isinstance(p, str) else '{%s}' % vstr(strip(p))[:40] for p in tpl)
+
+
+# the value grammar of the options that carry configuration (everything else: the value is the field itself)
+OPTION_GRAMMAR = {'--env': 'pair', '--publish': 'port', '--mount': 'mount'}
+
+
+def every_iteration_contributes(E, effs):
+    """every iteration of the (innermost) loop around the contributions `effs` makes one of them"""
+    ctxs = loop_contexts(E, effs[0])
+    if not ctxs:
+        return False
+    return on_every_iteration(E, effs, ctxs[-1])
+
+
+# ---------------------------------------------------------------------------------------------------------------
+# Part E: forwarding refinements
+# ---------------------------------------------------------------------------------------------------------------
+def extra_conditions(E, sl, e, cfg, fld):
+    """conditions effect e runs under, other than the presence of config.<fld> itself / loop progress over it"""
+    out = []
+    for cd, views, subj in guards_of(E, e):
+        s0 = strip(subj) if subj is not None else None
+        if s0 is not None and s0[0] == 'call' and s0[1] == IT + 'next':
+            continue        # loop progress (inside a loop / after an earlier loop has finished); the loops around e are checked by the caller
+        if cd.kind == 'variant' and subj is not None and cfg.exact(subj) == fld:
+            continue
+        if cd.kind == 'bool':
+            ok = False
+            for v, oc in views:
+                v0 = strip(v)
+                if v0[0] == 'call' and len(v0[2]) == 1 and cfg.exact(v0[2][0]) == fld and v0[1].endswith(('Option::<T>::is_some', 'Option::<T>::is_none')):
+                    ok = True
+            if ok:
+                continue
+        v, oc = views[0]
+        out.append('%s is %s' % (vstr(v)[:80], sorted(oc) if isinstance(oc, frozenset) else oc))
+    return out
+
+
+def buildpack_argument(sl, a, cfg, pkg):
+    """what one alternative of the argument of PackBuildCommand::buildpack is: ('ok', description) | ('bad', ..) | ('unknown', ..)"""
+    from .lib import value as _v
+    v = unconv(strip(a))
+    while v[0] == 'agg' and len(v[3]) == 1:
+        v = unconv(strip(v[3][0][1]))       # wrapped by hand in the command's own reference type (`Reference::Path(dir)`)
+    # the success payload of a packaging helper (`.unwrap_or_else(|e| panic!(..))`, `.expect(..)`, `?`)
+    for _ in range(6):
+        v = unconv(strip(v))
+        if v[0] == 'call' and v[2] and (v[1] in _v.UNWRAPPING or v[1] in _v.OK_PRESERVING or v[1].endswith(('::unwrap_or_else', '::expect', '::unwrap'))) \
+                and strip(v[2][0])[0] == 'call' and strip(v[2][0])[1] in pkg:
+            v = strip(v[2][0])
+            break
+    if v[0] == 'call' and v[1] in pkg:
+        if v[1].endswith('::package_buildpack'):
+            ref = element_payload(sl, v[2][0], cfg) if v[2] else None
+            if ref is None or ref[0] != 'buildpacks':
+                return 'bad', 'the package of %s, not of the configured workspace buildpack' % vstr(strip(v[2][0]))[:60] if v[2] else 'nothing'
+        return 'ok', 'the directory packaged by %s' % v[1].split('::')[-1]
+    ref = element_payload(sl, v, cfg)
+    if ref is not None and ref[0] == 'buildpacks':
+        return 'ok', 'the configured reference itself'
+    if cfg.within(v) is not None or any(x[0] == 'call' and x[1] == IT + 'next' for x in walk(v)):
+        return 'bad', '%s, not the configured reference itself' % vstr(v)[:80]
+    return 'unknown', vstr(v)[:80]
+
+
+def element_payload(sl, v, cfg):
+    """(field,) when v is the loop element of config.<field> or the payload of one of its enum variants, unchanged"""
+    v = unconv(strip(v))
+    for _ in range(8):
+        v = unconv(strip(v))
+        if v[0] in ('field', 'variant'):
+            v = v[1]
+            continue
+        break
+    v = strip(v)
+    if v[0] == 'call' and v[1] == IT + 'next' and v[2]:
+        fld = whole_collection(sl, v[2][0], cfg, mapped=False)
+        if fld is not None:
+            return (fld,)
+    return None
